@@ -33,6 +33,7 @@ CONSTANTS
   MaxFaults = 100
   UserMayCancel = TRUE
   Kind = "%(Kind)s"
+  NeedHead = %(Head)s
 INVARIANT TClausesOK
 INVARIANT C12_QueueSlotsConserved
 INVARIANT C05_CleanupRegisteredBeforeRun
@@ -55,6 +56,7 @@ CONSTANTS
   NeedHead = %(head)s
   HasOld = %(old)s
   Dest = "%(dest)s"
+  Single = %(single)s
   W = %(w)d
 INVARIANT TClausesOK
 INVARIANT C06_M_DestOnlyOldOrComplete
@@ -108,14 +110,19 @@ DL_GEOS = [('dl-path-mp', {}), ('dl-path-mp', {'R': 1, 'IOQ': 1}),
            ('dl-ns-mp', {}), ('dl-seek-mp', {}),
            ('dl-ns-mp', {'R': 3, 'down_chunks': 1, 'IOQ': 1}),
            ('dl-ns-mp', {'R': 3, 'down_chunks': 3, 'IOQ': 2, 'size': 9}),
-           ('dl-seek-mp', {'R': 1, 'IOQ': 1, 'size': 6, 'provide': True})]
+           ('dl-seek-mp', {'R': 1, 'IOQ': 1, 'size': 6, 'provide': True}),
+           # below the threshold: one GetObject, writes and final task inline
+           ('dl-path-1', {'io_chunk': 4}), ('dl-ns-1', {'io_chunk': 4}),
+           ('dl-seek-1', {'io_chunk': 4, 'R': 1}), ('dl-path-1', {'io_chunk': 4, 'provide': True, 'old': False})]
 
 GEOS = [('up-path-mp', {}), ('up-path-1', {}), ('delete', {}),
         ('up-path-mp', {'R': 1}), ('up-path-mp', {'R': 3, 'RQ': 1}),
         ('up-path-mp', {'R': 2, 'RQ': 2}), ('up-path-1', {'R': 1, 'RQ': 1}),
         ('delete', {'R': 3, 'RQ': 1}),
         ('up-path-mp', {'R': 2, 'RQ': 1, 'size': 7}), ('up-path-mp', {'R': 3, 'size': 4}),
-        ('up-path-mp', {'R': 1, 'RQ': 2, 'size': 9})]
+        ('up-path-mp', {'R': 1, 'RQ': 2, 'size': 9}),
+        ('copy-mp', {}), ('copy-1', {}), ('copy-mp', {'R': 1, 'RQ': 1, 'provide': True}),
+        ('copy-mp', {'R': 3, 'RQ': 2, 'size': 7})]
 
 
 def scenarios(name, over, rng, thorough):
@@ -144,10 +151,12 @@ def scenarios(name, over, rng, thorough):
                 sc = copy.deepcopy(sc0)
                 sc['faults'] = [{'on': on, 'nth': nth, 'x': 0}]
                 jobs += S.det_schedules(sc, nrand, rng)
-        for rs in range(0, t0['size'], chunk):
+        single = t0['size'] < (sc0.get('cfg') or {}).get('threshold', 4)
+        for rs in ([0] if single else range(0, t0['size'], chunk)):
             # (the stream model has one position per part: a part is delivered
             #  whole or not at all, so faults fall before the data or at the EOF read)
-            fas = (0, 1) if t0.get('dst', 'path') != 'nonseekable' else (0, chunk)
+            fas = (0, 1) if t0.get('dst', 'path') != 'nonseekable' and not single \
+                else (0, t0['size'] if single else chunk)
             plans = [{'attempt': 1, 'fault_after': fa, 'fault': kind}
                      for kind in ('timeout', 'fatal', 'protocol') for fa in fas]
             plans.append({'fault_after': 0, 'fault': 'timeout'})       # every attempt fails
@@ -173,6 +182,9 @@ def scenarios(name, over, rng, thorough):
         jobs += S.det_schedules(sc, nrand, rng)
     ops = ['DeleteObject'] if name == 'delete' else (
         ['PutObject'] if name == 'up-path-1' else
+        ['HeadObject', 'CopyObject'] if name == 'copy-1' else
+        ['HeadObject', 'CreateMultipartUpload', 'UploadPartCopy', 'CompleteMultipartUpload',
+         'AbortMultipartUpload'] if name == 'copy-mp' else
         ['HeadObject', 'GetObject'] if t0['kind'] == 'download' else
         ['CreateMultipartUpload', 'UploadPart', 'CompleteMultipartUpload', 'AbortMultipartUpload'])
     for op in ops:
@@ -218,14 +230,16 @@ def validate(traces, geo):
         with open(path, 'w') as f:
             for t in traces:
                 f.write(json.dumps(t) + '\n')
-        if len(geo) == 4:
-            P, R, RQ, kind = geo
-            module, cfg, tag = 'Pipeline_Trace', CFG % dict(P=P, R=R, RQ=RQ, Kind=kind), 'PLTRACE '
+        if len(geo) == 5:
+            P, R, RQ, kind, head = geo
+            module, tag = 'Pipeline_Trace', 'PLTRACE '
+            cfg = CFG % dict(P=P, R=R, RQ=RQ, Kind=kind, Head='TRUE' if head else 'FALSE')
         else:
-            N, R, RQ, IOQ, A, head, old, dest, w = geo
+            N, R, RQ, IOQ, A, head, old, dest, w, single = geo
             module, tag = 'Download_Trace', 'DLTRACE '
             cfg = DL_CFG % dict(N=N, R=R, RQ=RQ, IOQ=IOQ, A=A, head='TRUE' if head else 'FALSE',
-                                old='TRUE' if old else 'FALSE', dest=dest, w=w)
+                                old='TRUE' if old else 'FALSE', dest=dest, w=w,
+                                single='TRUE' if single else 'FALSE')
         r = tlc.run_tlc(module, cfg, workers=1, env={'TRACE_FILE': path}, timeout=3000,
                         dfs_queue=True)
         reached = {}
@@ -298,11 +312,12 @@ def run(ck, pid, tier, seed):
     for gi, (reached, r) in outs:
         geo, jobs = groups[gi]
         rs = {x['jid'][1]: x for x in bygroup[gi]}
-        if len(geo) == 4:
-            label = f'Pipeline_Trace P={geo[0]} R={geo[1]} RQ={geo[2]} {geo[3]} x{len(rs)}'
+        if len(geo) == 5:
+            label = (f'Pipeline_Trace P={geo[0]} R={geo[1]} RQ={geo[2]} {geo[3]}'
+                     f'{"+head" if geo[4] else ""} x{len(rs)}')
         else:
             label = (f'Download_Trace N={geo[0]} R={geo[1]} RQ={geo[2]} IOQ={geo[3]} A={geo[4]} '
-                     f'head={geo[5]} old={geo[6]} dest={geo[7]} W={geo[8]} x{len(rs)}')
+                     f'head={geo[5]} old={geo[6]} dest={geo[7]} W={geo[8]} single={geo[9]} x{len(rs)}')
         ck.add_tlc(label, r, exhaustive=False)
         total += len(rs)
         if r.violated:
@@ -339,7 +354,7 @@ def run(ck, pid, tier, seed):
             ck.violation(pid + '_PipelineConformance', {
                 'family': 'pipeline-conformance', 'geometry': list(geo),
                 'detail': f'event {rc[0]} of {rc[1]} is not a step of '
-                          + ('Pipeline.tla' if len(geo) == 4 else 'Download.tla'),
+                          + ('Pipeline.tla' if len(geo) == 5 else 'Download.tla'),
                 'at_event': {k: v for k, v in at.items() if v not in ('', 0)},
                 'before': [{k: v for k, v in e.items() if v not in ('', 0, True)}
                            for e in ev[max(0, rc[0] - 7):rc[0] - 1]],
